@@ -107,17 +107,29 @@ def one_case(cid, rng, scheme, s, genic, cov, thorough):
                 obj = cls.from_algmod(gm, pg, 10, mem if mem else 1000)
             else:
                 obj = cls.from_algmod(gm, pg, 1, 10, nself, HaldaneMapFunction(), mem)
+            pm = list(range(n))
+            if n >= 2 and rng.random() < 0.4:
+                # the matrix is reordered / sorted / grouped IN PLACE along its taxa axes before it is read: the entry for a
+                # tuple of positions is then the value of the cross of the taxa now standing at these positions
+                how = rng.choice(["reorder_taxa", "reorder_taxa", "sort_taxa", "group_taxa"])
+                if how == "reorder_taxa":
+                    q = list(range(n)); rng.shuffle(q); obj.reorder_taxa(np.array(q))
+                else:
+                    getattr(obj, how)()
+                pm = [int(str(x)[1:]) for x in obj.taxa]       # taxa are named p<i>
+                c["inplace"] = how
             M = np.asarray(obj.mat, dtype=float)
             ok = True
             ents = []
             tuples = list(itertools.product(range(n), repeat=K))
             if len(tuples) > 40:
                 tuples = rng.sample(tuples, 40)
-            for par in tuples:
+            for pos in tuples:
+                par = tuple(pm[i] for i in pos)
                 for t1 in range(T):
                     t2s = range(T) if cov else [t1]
                     for t2 in t2s:
-                        x = M[par + ((t1, t2) if cov else (t1,))]
+                        x = M[pos + ((t1, t2) if cov else (t1,))]
                         if not np.isfinite(x):
                             ok = False; f = Fraction(0)
                         else:
@@ -126,7 +138,7 @@ def one_case(cid, rng, scheme, s, genic, cov, thorough):
                                 ok = False
                         ents.append([list(par), t1 + 1, t2 + 1, f.numerator, f.denominator])
             c["entries"] = ents; c["lat"] = ok
-            c["labels"] = list(obj.taxa) == list(pg.taxa)
+            c["labels"] = list(obj.taxa) == [pg.taxa[i] for i in pm] and sorted(pm) == list(range(n))
     except Exception as e:
         c["err"] = "%s: %s" % (type(e).__name__, str(e)[:200])
     c.setdefault("entries", []); c.setdefault("lat", False); c.setdefault("labels", True)
@@ -302,7 +314,7 @@ def run(ctx):
                 for _ in range(2 if thorough else 1):
                     allc.append(dihybrid_case(len(allc) + 1, rng, s, genic, cov))
         verd = cases.validate(ctx, "ProgenyVar_Trace", "ProgenyVar_Trace.cfg",
-                              [{k: v for k, v in c.items() if k not in ("cls", "mem", "cov", "labels")} for c in allc],
+                              [{k: v for k, v in c.items() if k not in ("cls", "mem", "cov", "labels", "inplace")} for c in allc],
                               "ProgenyVar_Trace", chunk=3, procs=14, env={"TABLE_FILE": tf}, timeout=3000)
     finally:
         shutil.rmtree(tmp, ignore_errors=True)
